@@ -712,6 +712,14 @@ func c15Literals(c *wk.Case) {
 	if c.Rng.IntN(3) == 0 {
 		s += []string{"×", "÷", "•", "–", "ˆ", "²", "a×b", "\\", "\\\\", "\"", "\\\"", "\\n", "//x", "/*x*/", "'"}[c.Rng.IntN(15)]
 	}
+	switch c.Rng.IntN(8) {
+	case 0:
+		// a backslash in front of a letter that is an escape letter, in front of a quote, doubled, at the end
+		s += []string{"\\n", "\\r", "\\t", "C:\\new\\table\\run", "\\\\n", "\\\"", "a\\", "\\\\", "\\n\n", "\\x41", "\\u0041", "\\0"}[c.Rng.IntN(12)]
+	case 1:
+		// the whole string is a word of the language
+		s = []string{"if", "then", "else", "let", "func", "switch", "case", "default", "try", "catch", "true", "false", "pi", "sqrt", "a"}[c.Rng.IntN(15)]
+	}
 	g := c15gens.plain
 	if c.Index%2 == 0 {
 		g = c15gens.comments
